@@ -272,7 +272,7 @@ def _average(ctx, prog):
                 idx = str(cm[1])
                 if idx == "0" or idx == "gmsol_liquidity_provider::APY_LAST_INDEX":
                     ok = True
-                elif re.match(r"^Result::unwrap_or\(TryFrom::try_from\(Ord::min\(" + WEEKS + ", " + LAST + r"\)\), gmsol_liquidity_provider::APY_LAST_INDEX\)$", idx):
+                elif re.match(r"^(Result::unwrap_or\(TryFrom::try_from\(Ord::min\(" + WEEKS + ", " + LAST + r"\)\), gmsol_liquidity_provider::APY_LAST_INDEX\)|\(Ord::min\(" + WEEKS + ", " + LAST + r"\) as usize\))$", idx):
                     ok = True  # min(x, LAST) <= LAST < BUCKETS; the fallback is LAST
             if not ok:
                 bad.append(str(e)[:120])
@@ -281,16 +281,55 @@ def _average(ctx, prog):
     # accumulation only by saturating ops; the three terms
     muls = [c for c in f.calls if c.short == "u128::saturating_mul"]
     adds = [c for c in f.calls if c.short == "u128::saturating_add"]
-    terms = sorted("%s * %s" % (c.arg_expr(0), c.arg_expr(1)) for c in muls)
-    t_loop = [c for c in muls if re.match(r"^Iterator::next\(Iterator::take\(\[T\]::iter\(apy_gradient\), \(Ord::min\(" + WEEKS + ", " + LAST + r"\) as usize\)\)\)@Some\.0$", str(c.arg_expr(0)))
-              and str(c.arg_expr(1)) == "gmsol_liquidity_provider::SECONDS_PER_WEEK"]
-    t_extra = [c for c in muls if str(c.arg_expr(0)) == "apy_gradient[gmsol_liquidity_provider::APY_LAST_INDEX]" and
-               re.match(r"^u128::saturating_mul\(gmsol_liquidity_provider::SECONDS_PER_WEEK, \(" + WEEKS + " SubWithOverflow " + LAST + r"\)\.0\)$", str(c.arg_expr(1)))]
-    t_rem = [c for c in muls if re.match(r"^apy_gradient\[Result::unwrap_or\(TryFrom::try_from\(Ord::min\(" + WEEKS + ", " + LAST + r"\)\), gmsol_liquidity_provider::APY_LAST_INDEX\)\]$", str(c.arg_expr(0)))
-             and re.match(r"^\(" + TOTAL + r" Rem gmsol_liquidity_provider::SECONDS_PER_WEEK\)$", str(c.arg_expr(1)))]
-    ok = len(t_loop) == 1 and len(t_extra) == 1 and len(t_rem) == 1 and len(muls) == 4 and len(adds) == 3
+
+    def factors(e):
+        """flatten nested saturating_mul (commutative/associative) into the list of factor renderings"""
+        if e.k == "call" and e.a[0] == "u128::saturating_mul":
+            out, nested = [], []
+            for x in e.a[1]:
+                fs, ns = factors(x)
+                out += fs
+                nested += ns
+            return out, nested + ([e.a[2].bb] if len(e.a) > 2 else [])
+        return [str(e)], []
+
+    nested_bbs = set()
+    prods = {}
+    for c in muls:
+        fs, ns = [], []
+        for i in range(2):
+            a, b = factors(c.arg_expr(i))
+            fs += a
+            ns += b
+        prods[c.bb] = sorted(fs)
+        nested_bbs.update(ns)
+    top = {bb: fs for bb, fs in prods.items() if bb not in nested_bbs}
+    WEEK = "gmsol_liquidity_provider::SECONDS_PER_WEEK"
+    CAP = r"Ord::min\(" + WEEKS + ", " + LAST + r"\)"
+    IDXF = r"(Result::unwrap_or\(TryFrom::try_from\(" + CAP + r"\), gmsol_liquidity_provider::APY_LAST_INDEX\)|\(" + CAP + r" as usize\))"
+    ELEM = r"^Iterator::next\(Iterator::take\(\[T\]::iter\(apy_gradient\), " + IDXF + r"\)\)@Some\.0$"
+
+    def is_term(fs, pats):
+        fs = list(fs)
+        if len(fs) != len(pats):
+            return False
+        for pat in pats:
+            hit = [x for x in fs if re.match(pat, x)]
+            if not hit:
+                return False
+            fs.remove(hit[0])
+        return True
+
+    t_loop = [bb for bb, fs in top.items() if is_term(fs, [ELEM, "^" + re.escape(WEEK) + "$"])]
+    t_extra = [bb for bb, fs in top.items() if is_term(fs, [r"^apy_gradient\[gmsol_liquidity_provider::APY_LAST_INDEX\]$", "^" + re.escape(WEEK) + "$",
+                                                           r"^\(" + WEEKS + " (SubWithOverflow|Sub) " + LAST + r"\)(\.0)?$"])]
+    t_rem = [bb for bb, fs in top.items() if is_term(fs, [r"^apy_gradient\[" + IDXF + r"\]$", r"^\(" + TOTAL + r" Rem " + re.escape(WEEK) + r"\)$"])]
+    terms = sorted(" * ".join(fs) for fs in top.values())
+    ok = len(t_loop) == 1 and len(t_extra) == 1 and len(t_rem) == 1 and len(top) == 3 and len(adds) == 3
     ctx.ob("apy-average:terms", ok, "weighted terms: first min(full_weeks, LAST) buckets x week; bucket[LAST] x week x (full_weeks - LAST); bucket[min(full_weeks, LAST)] x remainder "
-           "(%d/%d/%d of %d saturating_mul, %d saturating_add)" % (len(t_loop), len(t_extra), len(t_rem), len(muls), len(adds)), where=f.where(), detail=[t[:160] for t in terms])
+           "(%d/%d/%d of %d products, %d saturating_add)" % (len(t_loop), len(t_extra), len(t_rem), len(top), len(adds)), where=f.where(), detail=[t[:160] for t in terms])
+    t_extra = [c for c in muls if c.bb in t_extra]
+    t_rem = [c for c in muls if c.bb in t_rem]
     if t_extra:
         ctx.ob("apy-average:extra-weeks-guard", A.has_fact(A.cmp_facts(f, t_extra[0].bb), ">", "^" + WEEKS + "$", "^" + LAST + "$"),
                "the extra-weeks term is added only when full_weeks > LAST_INDEX", where=f.where())
